@@ -139,7 +139,8 @@ def gen(prop, stream, tier, avoid):
             elif e == "scale":
                 op["mult"] = rng.pick([2.0, 0.5, 4.0, 0.25])
             elif e == "transform_copy":
-                op["how"] = rng.pick(["translate", "scale", "rotate"])
+                op["how"] = rng.pick(["translate", "scale", "rotate", "decompose"])
+                op["piece"] = rng.randrange(8)
                 op["vec"] = [rng.dyadic(-4, 4, 4) for _ in range(3)]
                 op["mult"] = rng.pick([2.0, 0.5])
                 op["angle"] = 90.0
@@ -546,6 +547,15 @@ def _apply_edit(world, lv, op, rng):
             c = g.operations.translate(obj, op["vec"][:lv.dim])
         elif op["how"] == "scale":
             c = g.operations.scale(obj, op["mult"])
+        elif op["how"] == "decompose":
+            # another out-of-place operation: the Bezier pieces are new objects (also when the shape is a single piece already);
+            # one of them joins the world and is edited by later steps - its source must not change with it
+            if lv.nd > 2 or getattr(lv, "unclamped", False):
+                return "skip"
+            pieces = g.operations.decompose_curve(obj) if lv.nd == 1 else g.operations.decompose_surface(obj)
+            c = pieces[op.get("piece", 0) % len(pieces)]
+            if len(pieces) == 1:
+                world.ctx.probe("decompose_single_piece")
         else:
             c = g.operations.rotate(obj, op["angle"], axis=2)
         nl = Live(c, lv.kind, lv.rational, lv.dim)
